@@ -4,7 +4,8 @@
 #   2001:db8:77::1/64, 10.78.0.1/24 + 2001:db8:78::1/64); the peer ends carry no
 #   address and are only used to inject and sniff frames (IPv6 disabled there, so
 #   that they emit nothing themselves). Static neighbour entries stand for the
-#   clients/relays the wire engine impersonates.
+#   clients/relays the wire engine impersonates. lo (multicast switched on) and tn0 are
+#   multicast-but-not-broadcast interfaces; vd0 <-> vd1 stays down.
 set -e
 ip link set lo up
 ip link add ve0 type veth peer name ve1
@@ -31,5 +32,12 @@ for n in 50 51 52 53; do
   ip -6 neigh replace fe80::aa:$n lladdr 02:aa:00:00:00:$n dev ve0 nud permanent 2>/dev/null || true
   ip -6 neigh replace fe80::aa:$n lladdr 02:aa:00:00:01:$n dev vf0 nud permanent 2>/dev/null || true
 done
+# interfaces that are multicast-capable but not broadcast-capable (loopback with the flag switched on, a
+# point-to-point tunnel): IPv4 and IPv6 multicast listeners expand over different interface sets
+ip link set lo multicast on 2>/dev/null || true
+ip tuntap add dev tn0 mode tun 2>/dev/null && ip link set tn0 up 2>/dev/null || true
+# a link that exists but is administratively down: frames sent on it fail with ENETDOWN
+ip link add vd0 type veth peer name vd1 2>/dev/null || true
+sysctl -qw net.ipv6.conf.vd1.disable_ipv6=1 2>/dev/null || true
 export VERIF_NETNS=1
 exec "$@"
